@@ -308,7 +308,7 @@ pub fn write_workspace(dir: &Path, c: &WtCase) {
     std::fs::write(dir.join("oal.toml"), format!("[api]\nmain = \"{}\"\ntarget = \"out.yaml\"\n", c.sources.files[0].0)).unwrap();
 }
 
-fn run_case(c: &WtCase, stride: usize, phase: usize, st: &mut Stats) -> Vec<Violation> {
+pub fn run_case(c: &WtCase, stride: usize, phase: usize, st: &mut Stats) -> Vec<Violation> {
     let dir = TempDir::new("c17");
     write_workspace(&dir.path, c);
     let info = WsInfo::new(&dir.path, &c.prog, &c.printed);
